@@ -124,6 +124,14 @@ CHECKS = {
             "assets against the flat portfolio with internal nodes as ordinary nodes, solutions transferred both ways.",
             "Trusted: list of scaled parameters in c16.scaled_base, transfer.py. LP bases only.",
             "DESIGN.md 5 C16"),
+    "C17": ("property-based testing (Hypothesis): defining inequalities of two-stage stochastic / robust problems checked against per-scenario optima from scipy-HiGHS",
+            "Exploration: generated portfolios, scenario sets sharing the present and boundaries; the SLP built by make_slp is "
+            "decomposed into scenario blocks (feasibility in the deterministic problem, accounting identity with independently "
+            "recomputed cost vectors) and bracketed by wait-and-see and expected-value bounds; the robust solution's worst "
+            "case is compared with every single-scenario solution.",
+            "Trusted: scipy-HiGHS per-scenario solves; cost vectors from fresh portfolios (costs_only). Portfolios with one "
+            "mapping row per variable.",
+            "DESIGN.md 5 C17"),
     "C18": ("property-based testing (Hypothesis): supergradient inequality checked by re-optimising a perturbed problem with scipy-HiGHS",
             "Exploration: for generated LP portfolios a (node, step) and an injection d of either sign are drawn; the nodal "
             "right-hand side is perturbed and the problem re-solved independently; the reported nodal price must satisfy "
